@@ -237,6 +237,30 @@ def k_sp_pack(ctx, shf, sec, data, apid, count, version):
             ctx.note(f"{type(a).__name__} == <{type(foreign).__name__}> -> {e!r}")
 
 
+def k_fresh_words(ctx, raw13, raw16):
+    """PacketId.from_raw / PacketSeqCtrl.from_raw hand out fresh objects: changing a result does not change what the same
+    conversion returns next time."""
+    sp = _imp()
+    case = {"k": "fresh_words", "raw13": raw13, "raw16": raw16}
+    ctx.case("fresh_words", (raw13, raw16), sample=case)
+    a = sp.PacketId.from_raw(raw13)
+    a.apid ^= 1
+    a.ptype = sp.PacketType(1 - int(a.ptype))
+    a.sec_header_flag = not a.sec_header_flag
+    b = sp.PacketId.from_raw(raw13)
+    ctx.check("id.raw", b is not a and b.raw() == raw13, "from_raw_returned_a_shared_object", "packet_id", case, observed=b.raw())
+    a.apid ^= 1
+    a.ptype = sp.PacketType(1 - int(a.ptype))
+    a.sec_header_flag = not a.sec_header_flag
+    c = sp.PacketSeqCtrl.from_raw(raw16)
+    c.seq_count ^= 1
+    c.seq_flags = sp.SequenceFlags(int(c.seq_flags) ^ 1)
+    d = sp.PacketSeqCtrl.from_raw(raw16)
+    ctx.check("psc.raw", d is not c and d.raw() == raw16, "from_raw_returned_a_shared_object", "psc", case, observed=d.raw())
+    c.seq_count ^= 1
+    c.seq_flags = sp.SequenceFlags(int(c.seq_flags) ^ 1)
+
+
 def k_hdr_history(ctx, seed):
     """One header object that is packed, compared and changed through its documented setters (in-range values) in any order:
     after every step pack() is the encoding of the current field values and decodes back to them."""
@@ -289,7 +313,7 @@ def k_hdr_history(ctx, seed):
             return
 
 
-KINDS = {"hdr_history": k_hdr_history, "pack": k_pack, "unpack": k_unpack, "refuse": k_refuse, "words": k_words, "sp_pack": k_sp_pack}
+KINDS = {"fresh_words": k_fresh_words, "hdr_history": k_hdr_history, "pack": k_pack, "unpack": k_unpack, "refuse": k_refuse, "words": k_words, "sp_pack": k_sp_pack}
 
 
 # ---------------------------------------------------------------- workload
@@ -373,6 +397,18 @@ def run(ctx):
             for data in (None, "", "00", "0102030405"):
                 k_sp_pack(ctx, shf, sec if shf or sec is None else None, data, r.getrandbits(11), r.getrandbits(14),
                           r.getrandbits(3))
+    for j in range(ctx.n(400, 40_000)):
+        k_fresh_words(ctx, r.getrandbits(13), r.getrandbits(16))
+    # octet strings the code under test itself holds (markers, masks, tables) and well-known link markers, as the start of a header
+    from spverif.core.util import harvested_constants
+    consts = harvested_constants()
+    ctx.extra["harvested_constants"] = len(consts)
+    for c in consts:
+        for pad in (b"", bytes(8), r.randbytes(8)):
+            raw = (c + pad + r.randbytes(6))[:max(6, len(c) + len(pad))]
+            if len(raw) >= 6:
+                k_unpack(ctx, raw.hex())
+                ctx.table("constants_as_header_start", "cases")
     for j in range(ctx.n(3000, 200_000)):
         k_hdr_history(ctx, ctx.seed * 1_000_003 + ctx.shard[0] * 100_003 + j)
     # informational: setters and the masking helper
